@@ -39,3 +39,7 @@ chk("C11","model_checking",
  "a monitor on every file-system mutation (libc interposition) holds the published set (live list U segments.idx) and the all-time id set and evaluates the immutability / fresh-id / atomic-index rules at every mutation of every lifetime of exhaustive short histories; every crash snapshot is checked statically and its recovery run is monitored and compared, segment by segment, with what the uninterrupted run published",
  "FS calls observed through interposed libc symbols (self-test at setup); mmap writes would be counted; bounded histories",
  "runtime monitor over exhaustively enumerated histories and crash points of the real implementation","fsmon+histx+crashx","DESIGN.md §2.8 §3 C11")
+chk("C05","model_checking",
+ "every assignment of event types to 3-4(5) L0 segments x fan-in k, three compaction rounds on the real CompactionWorker with the full observation suite after every round (before == after, attributed with the stored events); for a subset the compaction task is held at every gate of its first round while the suite is read; crash at every FS-mutation boundary of compaction histories with recovery judged by the C01 oracle",
+ "compaction triggered through the public worker API with the shard's live list and flush lock; queries whose pre-compaction answer is already wrong (C02/C04 defects) are not judged; exact-case known findings in known/C05.*.json and C01's protocol model for crash points",
+ "exhaustive enumeration of segment populations x rounds, gate-controlled schedules and crash points on the real implementation","histx+schedx+crashx","DESIGN.md §3 C05")
